@@ -216,12 +216,16 @@ theorem readInfo_start {cfg : Cfg} {t : TCfg} {r r0 : R} (hP : PreInv r) (hnr : 
                     | none => rw [hi2] at hx; cases hx
                     | some i2 =>
                       rw [hi2] at hx
-                      simp only [Prod.mk.injEq] at hx
-                      obtain ⟨rfl, _⟩ := hx
-                      have e1 : r2.ub = UB.new := readUntilImageData_ub hy
-                      have e2 : r2.sub.caf = false := readUntilImageData_caf hy
-                      have e3 : r2.isReader = true := hsp2.isReader
-                      exact ⟨e1, e2, e3⟩
+                      simp only at hx
+                      split at hx
+                      · simp only [Prod.mk.injEq] at hx
+                        obtain ⟨rfl, _⟩ := hx
+                        have e1 : r2.ub = UB.new := readUntilImageData_ub hy
+                        have e2 : r2.sub.caf = false := readUntilImageData_caf hy
+                        have e3 : r2.isReader = true := hsp2.isReader
+                        exact ⟨e1, e2, e3⟩
+                      · simp only [Prod.mk.injEq] at hx
+                        cases hx.2
             · cases hx
     | _ => simp only [Prod.mk.injEq] at h; cases h.2
 
